@@ -8,11 +8,11 @@ ENV = "GOFLAGS=-mod=mod GOPROXY=off GOSUMDB=off GOTOOLCHAIN=local GOWORK=off"
 CHECKS = {
  "C08": ("finite-domain abstract interpretation of seq's SSA; trace conformance with reference combinator semantics",
          "Structural necessary conditions, decided exhaustively over the paths of package seq: every exported combinator is abstractly evaluated on symbolic arguments and the traces of thunk/cond/post/continuation calls and c.step stores are compared with the reference semantics of the property for all 4 signals x nil-ness of cond/post x cond answers x 5 body behaviours x resumptions x a second run of the same Seq. A change to the runtime that alters any of these tables is reported with the offending trace.",
-         "Decides the combinators' own code, not Seq values written by users; continuations are assumed to be used linearly by the Seq arguments; Go closure semantics and go/ssa are trusted; numeric stack bounds are C17.",
+         "Decides the combinators' own code, not Seq values written by users; continuations are assumed to be used linearly by the Seq arguments; bookkeeping a loop keeps in the coroutine state shared by all terms of a run is re-examined with a body that contains a loop of its own when its values are constants (a computed stamp is not modelled); Send histories are included (BindRecv terms); Go closure semantics and go/ssa are trusted; numeric stack bounds are C17.",
          "DESIGN.md §4 C08"),
  "C09": ("finite-domain abstract interpretation of seq.Start and the iterator methods, driven through every operation history up to a depth bound with the generator body as a two-valued oracle; conformance with the reference protocol",
          "The iterator returned by seq.Start(opaque body) is abstractly driven through every sequence of MoveNext/Send/Current/Result up to length 5 (8 thorough), the body yielding (pending step stored as Bind does) or returning at every step; after each operation the returned values and which generator code ran with which received value are compared with the protocol of the property. Independent of the generator's representation.",
-         "The oracle models generator bodies that suspend through Bind/BindRecv's mechanism (established by SEQ.SUSPEND in the same run); histories longer than the bound are covered through merging of equal abstract states, not enumerated; Go semantics and go/ssa trusted.",
+         "The generator body is modelled with the package's own BindRecv (a yield is a run of BindRecv(y, nx) on the coroutine state and continuation the body was given): how a pending step is represented is not assumed; histories longer than the bound are covered through merging of equal abstract states, not enumerated; Go semantics and go/ssa trusted.",
          "DESIGN.md §4 C09"),
  "C14": ("resolved-program scan (package state, stores through captured variables) + abstract second-run check",
          "Decides the structural cause of independence: no package-level state touched by runtime code; no closure of a Seq constructor assigns a variable living outside the returned Seq; Start allocates generator and coroutine state per call; a second run of the same loop Seq starts from scratch; the rewriter never introduces declarations.",
@@ -36,15 +36,15 @@ CHECKS = {
          "DESIGN.md §4 C12"),
  "C01": ("decision-table extraction by abstract interpretation (block tables, termination checker vs spec reference on enumerated shapes, branch pass driven over context nestings), lowering-vs-runtime signal agreement, no-loss and template rules on the symbolic rewriting of every statement kind",
          "Whole-program equivalence is not decided. Decided, for every path of the code that implements them: the combine / implicit-Normal / yield-freeness tables of the block abstraction; the break/continue pass against the Go spec's target rule for every nesting of native contexts up to depth 3; the termination checker never over-approximates the spec's 'terminating statements' on ~2000 enumerated shapes; Loop/While/For choice and argument roles; the lowering of every break/continue target agrees with the signal tables extracted from the runtime in the same run; plus the runtime tables of C08.",
-         "Known findings D18 (break after a yield inside a switch case) and D19 (continue with a yielding for-post) are recorded in known_findings.json; Go closure semantics, go/ssa and go/ast grammar facts are trusted.",
+         "Known findings D19 (continue with a yielding for-post) and D33 (a break nested in a yielding statement of a switch clause: the repair of D18 is partial) are recorded in known_findings.json; the containment scan that decides which headers and switch breaks need lowering is decided too (RW.ORACLE containsYield); Go closure semantics, go/ssa and go/ast grammar facts are trusted.",
          "DESIGN.md §4 C01"),
  "C03": ("template extraction by abstract interpretation (constructed AST as heap tree with holes) + scoping obligations on the templates",
          "Decides the structural conditions of 'same variable as in the source': continuation nested in the Bind thunk; combine only after statements with their own scope; ':=' initialisers of for/switch/type-switch hoisted into a fresh block (inside generators only), never moved otherwise; ':=' range bodies nested as one block after the generated binding, with the loop's own token; both halves of a Combine are thunks; iterator temporaries from gensym.",
-         "Go's capture-by-reference is trusted; known findings D15 (consumer loop body spliced) and D23 (yielding post appended to the body's block) are recorded.",
+         "Go's capture-by-reference is trusted; known findings D15 (consumer loop body spliced), D23 (yielding post appended to the body's block) and D35 (a multi-variable := after a suspension point redeclares variables of the enclosing block: RW.SCOPE.REDECL, a necessary condition only) are recorded; a nested block keeps its scope (RW.NOLOSS block rows).",
          "DESIGN.md §4 C03"),
  "C04": ("template extraction for every variable form x token; dispatch table by operand kind cross-checked with seq's constructor signatures; iterator induction (C10)",
          "Decides: operand evaluated once before the loop, key/value/token mapping for all 18 variable forms, ':=' body nesting, gensym'd iterator; operand kind -> constructor table vs Go's range table and the constructors' parameter kinds; traversal enters nested closures; plus the iterators' inductive facts of C10 re-established in the same run.",
-         "Known findings D16 (array operands sliced in place) and D21 (non-int integer operands) are recorded; element-level equality is C10's scope.",
+         "Known finding D16 (array operands sliced in place) is recorded (D21, D30 repaired); element-level equality is C10's scope.",
          "DESIGN.md §4 C04"),
  "C05": ("template extraction of the YieldFrom and consumer-loop lowerings for every operand form; pass-order path rule on rewriteFile; runtime tables",
          "Decides: YieldFrom(x) becomes exactly `for v := range x { Yield(v) }` with x once; the consumer lowering evaluates the delegate once, advances once per iteration, reads once per iteration; the passes run YieldFrom -> range-over-iterator -> generator bodies; the statements after the delegation run only after exhaustion by SEQ.FOR/SEQ.COMBINE; a function whose only yield is a delegation (of any element type) is recorded as a generator on every path that passes the signature check; the yield-containment scan finds a delegation however the call is spelled; the delegation rewriter keeps no state between files.",
@@ -52,7 +52,7 @@ CHECKS = {
          "DESIGN.md §4 C05"),
  "C06": ("template extraction of rewriteForRange / rewriteIter / result type; pass-order rule",
          "Decides: consumer loops evaluate their operand exactly once, pull exactly one element per iteration in the loop condition (no prefetch), bind with the loop's own ':='/'=' token; the iterator type is replaced iff the iterator predicate holds, uniformly by seq.Iterator[T] under the file's import name; the post-less runtime loops the consumer is lowered to evaluate their condition once per iteration and never after a break (SEQ.FOR rows with a nil post).",
-         "Completeness of the type replacement in every syntactic position shows as a build error and is not decided; D15 recorded.",
+         "Completeness of the type replacement in every syntactic position shows as a build error and is not decided; D15 recorded (D32, the loop without a variable, repaired). The iterator-type predicate itself is decided by identity of the type, never by its name (RW.ITERPRED), and what it remembers does not outlive a file.",
          "DESIGN.md §4 C06"),
  "C02": ("abstract interpretation of the seq constructors and resumptions (laziness, suspension, take-and-clear), template extraction of the generator wrapper / Bind / Combine / loop arguments, pattern-term extraction of the Delay-elision whitelist",
          "Decides the structural reasons nothing runs early, late or twice: constructors run nothing; Bind suspends; resumptions run the thunk once inside the advance; Start runs nothing; exhaustion is absorbing; the generator body is exactly Start(Delay(thunk)); the continuation after a yield is the Bind thunk and the yielded expression its unwrapped first argument; loop cond/post/body and both Combine halves are thunks; a Delay is only elided around certified effect-free constructors or Bind with a basic literal.",
@@ -72,7 +72,7 @@ CHECKS = {
          "DESIGN.md §4 C13"),
  "C15": ("resolved-program scans (map ranges, nondeterminism sources), per-file reset path rule on rewriteFile, counter lifetime analysis of gensym, event-order rule on the intermediate directory, SSA backward slice of memo tables (key determines value)",
          "Decides the absence of every source of run-to-run or context dependence in the output path: no map iteration, no time/rand/pid/env, per-file state re-initialised before the first pass, unique-name counter advanced once per temporary and alive for exactly one file, intermediate directory emptied before use and removed afterwards, each stage loads the directory the previous one wrote and removes nothing else, iterator temporaries named through gensym, no table outliving a call filled with a value its key does not determine (OPT.MEMO), no stage loaded with type errors suppressed (DET.PARTIALTYPES: recorded finding D31).",
-         "File order of go/packages and the output of go/printer are trusted; byte identity itself is not compared.",
+         "File order of go/packages and the output of go/printer are trusted; byte identity itself is not compared. The imports of a file are cleaned after the optimisation passes have run for it (OPT.ORDER), the name generator of the temporaries is found by its call (whatever it is called).",
          "DESIGN.md §4 C15"),
  "C16": ("abstract interpretation of GoGen / cogen with constant folding of string functions (file filter and both printers evaluated on concrete names), header constant checked with go/build/constraint, event-order rule on the intermediate directory",
          "Decides necessary conditions of 'exactly the derived files': header well-formed and generated-code convention; loader tag = negated header tag; exactly *_co.go / *_co_test.go processed; each is written exactly to the sibling with the suffix removed (also for base names and directories containing the marker), through an intermediate directory that is emptied before and removed after; files not using the runtime are not written; cogen only runs in go:generate mode.",
